@@ -41,6 +41,115 @@ def expected_for(spec, m):
     return out
 
 
+SPATIAL3 = """arch:
+  nodes:
+  - !Memory
+    name: MainMemory
+    size: inf
+    leak_power: 0
+    area: 0
+    tensors: {{keep: ~Intermediates, may_keep: All}}
+    actions:
+    - {{name: read, energy: 8, throughput: {mthr}}}
+    - {{name: write, energy: 8, throughput: {mthr}}}
+{outer}  - !Memory
+    name: GlobalBuffer
+    size: {glb}
+    leak_power: 0
+    area: 0
+    tensors: {{keep: All}}
+    actions:
+    - {{name: read, energy: 2, throughput: {gthr}}}
+    - {{name: write, energy: 2, throughput: {gthr}}}
+{macarray}{regs}  - !Compute
+    name: MAC
+    leak_power: 0
+    area: 0
+{cspatial}    actions:
+    - {{name: compute, energy: 1, throughput: {cthr}}}
+"""
+OUTER = """  - !Container
+    name: BufferArray
+    spatial:
+    - name: X
+      fanout: {fx}
+    - name: Y
+      fanout: {fy}
+"""
+REGS = """  - !Memory
+    name: Registers
+    size: inf
+    leak_power: 0
+    area: 0
+    tensors: {keep: All}
+    actions:
+    - {name: read, energy: 1, throughput: inf}
+    - {name: write, energy: 1, throughput: inf}
+"""
+
+
+def spatial_stream(ck, af, evaluate_mapping, d, dist):
+    """architectures with spatial fanouts (outside MiniForge): the numbers the mapper derives from the compiled formulas for every returned
+       mapping against the STANDALONE concrete evaluation of that very mapping by the real model"""
+    import copy
+    from accelforge.mapper.FFM.main import map_workload_to_arch
+    rng = ck.rng("spatial")
+    sd = {"specs": 0, "rows_compared": 0, "mapper_errors": 0, "max_loops_in_a_mapping": 0}
+    for k in range(ck.n(6, 40)):
+        three = k % 2 == 0
+        on_compute = k % 3 == 1          # the fanout sits on the Compute node itself
+        fz = rng.choice([2, 4])
+        macarray = "" if on_compute else f"  - !Container\n    name: MACArray\n    spatial:\n    - name: Z\n      fanout: {fz}\n"
+        cspatial = f"    spatial:\n    - name: X\n      fanout: {fz}\n" if on_compute else ""
+        arch = SPATIAL3.format(mthr="inf" if on_compute else rng.choice(["inf", 2, 3]), glb=rng.choice(["inf", 512, 2048]), gthr="inf" if on_compute else rng.choice(["inf", 4, 6]),
+                               macarray=macarray, cspatial=cspatial,
+                               cthr=rng.choice([3, 5, 6]) if on_compute else rng.choice([1, 2, 3, 5]), outer=OUTER.format(fx=rng.choice([2, 3]), fy=2) if three else "",
+                               regs=REGS if three else "")
+        jinja = {"N_EINSUMS": 1, "M": rng.choice([4, 6, 8, 12]), "KN": rng.choice([4, 6, 8])}
+        (d / "sa.yaml").write_text(arch)
+        sd["specs"] += 1
+        key = json.dumps([arch, jinja], sort_keys=True)
+        cwd = os.getcwd()
+        os.chdir(d)
+        try:
+            sp = af.Spec.from_yaml(str(d / "sa.yaml"), af.examples.workloads.basic.matmuls, jinja_parse_data=jinja)
+            sp.mapper.metrics = [af.Metrics.ENERGY | af.Metrics.LATENCY, af.Metrics.ENERGY | af.Metrics.LATENCY | af.Metrics.RESOURCE_USAGE][k % 2]
+            fast = map_workload_to_arch(sp, eval_in_detail=False, print_progress=False)
+        except Exception as ex:  # noqa
+            sd["mapper_errors"] += 1
+            os.chdir(cwd)
+            continue
+        finally:
+            os.chdir(cwd)
+        ck.case("spatial:" + key, nontrivial=True, sample={"jinja": jinja, "three_level": three, "rows": len(fast.data)})
+        for j in range(min(len(fast.data), ck.n(6, 20))):
+            row = fast.data.iloc[j]
+            try:
+                local = copy.deepcopy(sp)
+                local.model.metrics = local.mapper.info_metrics
+                local.mapping = row["Total<SEP>mapping"](_for_model=True)
+                sd["max_loops_in_a_mapping"] = max(sd["max_loops_in_a_mapping"], sum(1 for n in local.mapping.nodes if hasattr(n, "tile_shape")))
+                os.chdir(d)
+                try:
+                    alone = evaluate_mapping(local)
+                finally:
+                    os.chdir(cwd)
+                e2, l2 = float(alone.energy()), float(alone.latency())
+            except Exception as ex:  # noqa
+                ck.failing_input({"arch_yaml": arch, "jinja": jinja, "row": j, "error": f"{type(ex).__name__}: {str(ex)[:300]}"},
+                                 what="the concrete model rejects a mapping whose formula values the mapper reported")
+                continue
+            sd["rows_compared"] += 1
+            bad = [f"Total {nm}: value of the compiled formula {float(row[c])} vs concrete evaluation {v}" for nm, c, v in (("energy", "Total<SEP>energy", e2), ("latency", "Total<SEP>latency", l2))
+                   if c in fast.data.columns and not close(float(row[c]), v, 2e-5)]
+            if bad:
+                ck.failing_input({"arch_yaml": arch, "workload": "examples/workloads/basic/matmuls.yaml", "jinja": jinja, "row": j, "problems": bad,
+                                  "mapping": [getattr(n, "compact_str", lambda: str(n))() for n in local.mapping.nodes]},
+                                 what="symbolic formula vs concrete evaluation on a spatial-array architecture: " + bad[0])
+                break
+    dist["spatial_stream"] = sd
+
+
 def run(ck):
     af, evaluate_mapping = R.load()
     import numpy as np
@@ -155,6 +264,7 @@ def run(ck):
                     exprs.append(f"(let sp := {G.coq_spec(spec)} in let tp := {T.coq_template(tpl, ent['symbols'])} in let sg := {T.coq_sigma(ent['symbols'], sg)} in [{cells}])")
                     sub = {s: sg[s.name] for s in symlist if s.name in sg}
                     keys.append((spec, tpl, sg, {k: float(f.xreplace(sub)) if hasattr(f, "xreplace") else float(f) for k, f in norm.items() if k.startswith("action<SEP>")}))
+    spatial_stream(ck, af, evaluate_mapping, d, dist)
     vals = common.run_coq_eval("C07", ["AF.Lib.MiniForge", "AF.C07.Model"], exprs, chunk=20, preamble="From Coq Require Import QArith.\nOpen Scope Z_scope.")
     mism = []
     for (spec, tpl, sg, acts), v in zip(keys, vals):
